@@ -25,6 +25,13 @@ def gen_texts(ctx):
     q = ctx.tier == "quick"
     texts = [G.dec(l) for l in C.load_corpus("text")]
     texts += G.special_texts()
+    texts += G.escape_texts(rnd, 1500 if q else 20000)
+    # token-count boundaries: truncated statements / programs padded to 63, 64, 65, 128 parser tokens
+    ends = ["def f()", "def f() -", "a +", "a + ", "x = a", "for int i in", "gate g q", "U(1) q", "a <", "a >", "a &", "a |",
+            "a -", "a *", "a = ", "a +=", "a <<", "a >>", "a !", "a =", "if (a) x; else", "1 .", "a :", "[1:", "delay[1ns]",
+            "inv @", "ctrl(2) @", "a ->", "def f() -> int", "x++", "x+", "a**", "a*", "a&&", "a&", "a||", "a|", "a==", "a!=",
+            "a<=", "a>=", "a<<=", "a>>=", "a-=", "a*=", "a/=", "a|=", "a&=", "a^=", "a%=", "a~", "~", "a/", "a%", "a^"]
+    texts += G.boundary_texts(ctx, C, ends + GP.gen_programs(ctx.seed + 7, 150 if q else 3000))
     texts += G.random_texts(rnd, 30000 if q else 400000, maxlen=25)
     texts += [d["text"] for d in GL.gen_sequences(ctx.seed, 5000 if q else 60000)]
     texts += [d["text"] for d in GL.gen_malformed(ctx.seed, 3000 if q else 30000)]
